@@ -158,14 +158,15 @@ func answerMiss(q string) (string, error) {
 // responses. Oracle misses are answered and the batch is re-sent until none remain.
 func (d *Driver) Ask(reqs []string) ([]string, error) {
 	for attempt := 0; attempt < 50; attempt++ {
-		for _, r := range reqs {
-			d.in.WriteString(r)
-			d.in.WriteByte('\n')
-		}
-		d.in.WriteString("sync\n")
-		if err := d.in.Flush(); err != nil {
-			return nil, err
-		}
+		werr := make(chan error, 1)
+		go func() {
+			for _, r := range reqs {
+				d.in.WriteString(r)
+				d.in.WriteByte('\n')
+			}
+			d.in.WriteString("sync\n")
+			werr <- d.in.Flush()
+		}()
 		d.Sent += len(reqs)
 		resps := make([]string, 0, len(reqs))
 		for {
@@ -194,6 +195,7 @@ func (d *Driver) Ask(reqs []string) ([]string, error) {
 				fmt.Fprintln(os.Stderr, "driver:", line)
 			}
 		}
+		<-werr
 		if len(misses) == 0 {
 			if len(resps) != len(reqs) {
 				return nil, fmt.Errorf("driver answered %d lines for %d requests", len(resps), len(reqs))
